@@ -17,6 +17,7 @@ import dimkit as Q
 import devkit as D
 import algebra as A
 from rules.C01 import forced_equal, possibly_equal, sym_unit
+from program import units_enabled
 
 KINDS = ["Position", "Velocity", "Acceleration"]
 KIND_UNIT = {"Position": (1, 0), "Velocity": (1, -1), "Acceleration": (1, -2)}
@@ -113,7 +114,7 @@ def check_setters(chk, prog, sim):
                 post = sim.final_value(stl, stl.mem[a0.ptr.obj])
                 r = sim.final_value(stl, leaf.value)
                 accepted = raw or (isinstance(r, Enum) and r.vname == "Ok")
-                if not raw:
+                if not raw and units_enabled(prog):
                     u = sym_unit("x.unit")
                     same = forced_equal(sim, stl, u[0], Const(want_unit[0])) and forced_equal(sim, stl, u[1], Const(want_unit[1]))
                     maybe = possibly_equal(sim, stl, u[0], Const(want_unit[0])) and possibly_equal(sim, stl, u[1], Const(want_unit[1]))
@@ -138,7 +139,10 @@ def check_setters(chk, prog, sim):
                     if post != pre:
                         chk.violation("C14.S", key + ":untouched", "%s rejects the argument (Err) but changes the state from %r to %r" % (fname, pre, post), fn=fn["pretty"], file=loc(fn["span"]))
                         ok = False
-            if n_ok == 0 or (not raw and n_err == 0):
+            if not units_enabled(prog) and n_err:
+                chk.violation("C14.S", key + ":rejects-unchecked", "%s rejects an argument although dimension checking is compiled out" % fname, fn=fn["pretty"], file=loc(fn["span"]))
+                ok = False
+            if n_ok == 0 or (not raw and n_err == 0 and units_enabled(prog)):
                 chk.violation("C14.S", key + ":paths", "%s: expected both an accepting and a rejecting path (got %d/%d)" % (fname, n_ok, n_err), fn=fn["pretty"])
                 ok = False
             if ok:
@@ -185,6 +189,13 @@ def check_command_from_state(chk, prog, sim):
         chk.discharge(key)
 
 
+def unit_is(sim, prog, stx, unit_val, want):
+    if not units_enabled(prog):
+        return True
+    ex = Q.unit_exps(sim, stx, unit_val)
+    return bool(ex) and tuple(getattr(e, "val", None) for e in ex) == want
+
+
 def check_accessors(chk, prog, sim):
     key = "A:command-tables"
     chk.obligation(key, "Command constructor/accessors/conversions are mutually consistent")
@@ -224,8 +235,7 @@ def check_accessors(chk, prog, sim):
             chk.violation("C14.A", "f32::from:" + k, "f32::from(Command::%s(x)) = %r" % (k, r), fn=f32_from["pretty"])
             ok = False
         r, stq = one(q_from, [c])
-        ex = Q.unit_exps(sim, stq, r.fields[1]) if isinstance(r, Struct) and len(r.fields) == 2 else None
-        if not (isinstance(r, Struct) and r.fields[0] == x and ex and tuple(e.val for e in ex) == KIND_UNIT[k]):
+        if not (isinstance(r, Struct) and len(r.fields) == 2 and r.fields[0] == x and unit_is(sim, prog, stq, r.fields[1], KIND_UNIT[k])):
             chk.violation("C14.A", "Quantity::from:" + k, "Quantity::from(Command::%s(x)) = %r" % (k, r), fn=q_from["pretty"])
             ok = False
         # accessors (take &self)
@@ -241,8 +251,7 @@ def check_accessors(chk, prog, sim):
         def q_is(v, stx, val, unit):
             if not (isinstance(v, Struct) and len(v.fields) == 2):
                 return False
-            ex = Q.unit_exps(sim, stx, v.fields[1])
-            return v.fields[0] == val and ex and tuple(e.val for e in ex) == unit
+            return v.fields[0] == val and unit_is(sim, prog, stx, v.fields[1], unit)
         zero = Const(0.0, prim("f32"))
         rp = acc(gp)
         rv = acc(gv)
@@ -278,8 +287,7 @@ def check_accessors(chk, prog, sim):
         ls = sim.run(gvl, sim.identity_gargs(gvl), [Ref(Ptr(oid)), sim.mk_enum(pdty, k)], st)
         chk.evaluated(1, nontrivial=(key, "get_value", k))
         v = sim.final_value(ls[0].state, ls[0].value) if len(ls) == 1 and ls[0].kind == "return" else None
-        ex = Q.unit_exps(sim, ls[0].state, v.fields[1]) if isinstance(v, Struct) and len(v.fields) == 2 else None
-        if not (isinstance(v, Struct) and v.fields[0] == Sym("s." + k.lower()) and ex and tuple(e.val for e in ex) == KIND_UNIT[k]):
+        if not (isinstance(v, Struct) and len(v.fields) == 2 and v.fields[0] == Sym("s." + k.lower()) and unit_is(sim, prog, ls[0].state, v.fields[1], KIND_UNIT[k])):
             chk.violation("C14.A", "State::get_value:" + k, "State::get_value(%s) = %r" % (k, v), fn=gvl["pretty"], file=loc(gvl["span"]))
             ok = False
     if ok:
